@@ -3,7 +3,7 @@
 set -e
 cd "$(dirname "$0")"
 ln -sfn /repo subject
-export CARGO_TARGET_DIR="$PWD/target" RUSTFLAGS="--cfg microscpi_verif -A mismatched_lifetime_syntaxes" CARGO_NET_OFFLINE=true
+export CARGO_TARGET_DIR="$PWD/target" RUSTFLAGS="--cfg microscpi_verif --cfg microscpi_verif_scan -A mismatched_lifetime_syntaxes -A unexpected_cfgs" CARGO_NET_OFFLINE=true
 cd harness
 cargo build --release --offline -q -p mc
 cargo build --release --offline -q -p mc-std
